@@ -6,7 +6,8 @@ structural functions (R2), the token loop of `full_cleaning` taking the TOKEN LI
 `suppress_main_guard` taking the parser's answer (line ranges of the top-level `if`s) as input. It mirrors
 /repo after the repairs e959b88 (F08), ff0b849 (F18), decc026 (F21), 2488bc4 (F19), 466f14f (F22+F23),
 55c4b14 (F33), 9ee7189 (F20), 4b0a4d7 (F36), 643e8d6 (F37),
-and the three repairs F42 (injection on the last line), F43 (guard recognised by its test), F44 (\\N{…} in f-strings). No finding of C13 is open.
+and the repairs F42 (injection on the last line), F43 (guard recognised by its test), F44 (\\N{…} in f-strings),
+F50 (an injection STATEMENT goes with all its lines: `suppress_sys_path_injection` takes the parser's statements as input).
 
 PROVED here, for every text and every token list (not only those CPython's tokenizer can produce):
   * no line of the result is empty or blank                                   (C13_no_blank_line)
@@ -24,6 +25,9 @@ PROVED here, for every text and every token list (not only those CPython's token
   * `suppress_main_guard` (parser as an oracle) removes exactly the lines of the guarded top-level
     `if` blocks and keeps every other line in order — repair 9ee7189          (C13_main_guard,
                                                                                an unparsable source is unchanged)
+  * `suppress_sys_path_injection` (parser as an oracle) removes exactly the lines of the column-0
+    top-level statements whose first line is an injection, all of them — repair F50 (C13_injection_statements,
+                                                                               C13_injection_marks, C13_injections)
   * a token on a later row inside an open logical line (backslash continuation) is kept apart from
     the previous one, column 0 included — repair 55c4b14                     (C13_rows_not_glued)
 
@@ -35,6 +39,7 @@ import Paroxy.Model.Cleanup
 import Paroxy.Spec.Cleanup
 import Paroxy.Proofs.Cleanup
 import Paroxy.Proofs.CleanupLoop
+import Paroxy.Proofs.CleanupInj
 namespace Paroxy.Props.C13
 open Paroxy.Cleanup Paroxy.Cleanup.Spec
 
@@ -47,8 +52,9 @@ theorem C13_no_blank_line (ts : List Token) : NoBlankLine (postprocess ts) :=
 
 /-- The same for `full_cleaning` itself, whatever the tokenizer answers (it may raise). -/
 theorem C13_no_blank_line_full {ε : Type} (parse : Text → Option (List IfStmt))
+    (parseStmts : Text → Option (List Stmt))
     (tokenize : Text → Except ε (List Token)) (src out : Text)
-    (h : fullCleaning parse tokenize src = .ok out) : NoBlankLine out := by
+    (h : fullCleaning parse parseStmts tokenize src = .ok out) : NoBlankLine out := by
   unfold fullCleaning at h
   split at h
   · cases h
@@ -181,9 +187,10 @@ example : postprocess docstringThenComment = "x".toList := by decide
 when the tokenizer does. (This restates the shape of `fullCleaning`; kept as a reminder that the former
 IndexError on a last STRING token is gone.) -/
 theorem C13_cleaning_total {ε : Type} (parse : Text → Option (List IfStmt))
+    (parseStmts : Text → Option (List Stmt))
     (tokenize : Text → Except ε (List Token)) (src : Text) (ts : List Token)
-    (h : tokenize (preprocess parse src) = .ok ts) :
-    fullCleaning parse tokenize src = .ok (postprocess ts) := by
+    (h : tokenize (preprocess parse parseStmts src) = .ok ts) :
+    fullCleaning parse parseStmts tokenize src = .ok (postprocess ts) := by
   simp [fullCleaning, h]
 
 /-- **C13 (f-string braces)** — repair 2488bc4 (finding 19). An FSTRING_MIDDLE token is emitted with
@@ -269,19 +276,105 @@ example : suppressMainGuard (some [⟨1, 2, false⟩, ⟨4, 7, true⟩, ⟨9, 9,
     "if x:\n    y = 1\nz = 1\nif __name__ == '__main__':\n    a()\nelse:\n    b()\n# paroxython: foo\nif __name__==\"__main__\": main()\nw = 1".toList =
     "if x:\n    y = 1\nz = 1\n# paroxython: foo\nw = 1".toList := by decide
 
-/-! ## `sys.path` injections (finding F42) -/
+/-! ## `sys.path` injections (findings F42 and F50) -/
 
-/-- **C13 (injection lines)** — every line of the text that is an injection
-(`__import__("sys").path[0:0] = …`) is removed, the LAST line of a text without final newline
-included; the other lines are kept in order. (Before the repair the last line was kept — and so
-was an injection followed only by the `__main__` guard, since removing the guard leaves no newline.) -/
-theorem C13_injections (t : Text) :
-    (∀ l ∈ splitNl (suppressSysPath t), isInjection l = false) ∧
-    (splitNl (suppressSysPath t)).filter (fun l => !l.isEmpty) =
-      ((splitNl t).filter fun l => !isInjection l).filter (fun l => !l.isEmpty) :=
-  injections_spec t
+/-- **C13 (injection statements)** — FULL since repair F50. The parser being an oracle that reports ALL
+the top-level statements with their line ranges and whether they start at column 0 (`RangesOk` on those
+at column 0: in bounds, one after the other), the pass removes exactly the lines `lineno … end_lineno`
+of the column-0 statements whose FIRST LINE is an injection (`__import__("sys").path[0:0] = …`), and
+keeps every other line, in order (`keepOutsideGuards` on `injectionMarks`): a statement written on
+several lines goes with ALL its lines, and the test of the first line — which the loop makes on the
+list of lines as it is after the deletions already done — is the test on the line of the SOURCE. -/
+theorem C13_injection_statements (t : Text) (ss : List Stmt)
+    (hok : RangesOk 0 (splitNl t).length (injectionMarks (splitNl t) ss)) :
+    suppressSysPath (some ss) t = joinNl (keepOutsideGuards 0 (splitNl t) (injectionMarks (splitNl t) ss)) := by
+  have := dropInjectionStmts_reverse ss 0 (splitNl t) [] rfl (by simpa using hok)
+  simp only [List.nil_append] at this
+  simp only [suppressSysPath, this]
 
-example : suppressSysPath "x = 1\n__import__(\"sys\").path[0:0] = [\"a\"]".toList = "x = 1\n".toList := by decide
+/-- A source that the parser rejects is left unchanged (restates the model). -/
+example (t : Text) : suppressSysPath none t = t := rfl
+
+/-- **C13 (no injection statement is kept, no other statement is dropped).** The ranges the pass walks
+through are the column-0 statements, and a range is dropped iff the first line of the statement is an
+injection: a kept top-level statement is not an injection, a dropped one is. -/
+theorem C13_injection_marks (ls : List Line) (ss : List Stmt) (r : IfStmt) (hr : r ∈ injectionMarks ls ss) :
+    (∃ s ∈ ss, s.col0 = true ∧ r.lineno = s.lineno ∧ r.endLineno = s.endLineno) ∧
+    (r.isGuard = true ↔ isInjection (ls.getD (r.lineno - 1) []) = true) := by
+  simp only [injectionMarks, List.mem_map, List.mem_filter] at hr
+  obtain ⟨s, ⟨hs, hc⟩, rfl⟩ := hr
+  exact ⟨⟨s, hs, hc, rfl, rfl⟩, Iff.rfl⟩
+
+/-- **C13 (a multi-line injection goes with ALL its lines)**: the only statement of the text, at
+column 0, spanning every line, its first line an injection — nothing is left. -/
+theorem C13_injection_whole_statement (t : Text) (n : Nat) (hn : (splitNl t).length = n)
+    (h1 : isInjection ((splitNl t).getD 0 []) = true) :
+    suppressSysPath (some [⟨1, n, true⟩]) t = [] := by
+  subst hn
+  have hpos : 0 < (splitNl t).length := List.length_pos_iff.mpr (splitNl_ne_nil t)
+  rw [C13_injection_statements]
+  · rw [List.getD_eq_getElem?_getD] at h1
+    simp [injectionMarks, keepOutsideGuards, h1, joinNl]
+  · simp only [injectionMarks, List.filter_cons, List.filter_nil, List.map_cons, List.map_nil, if_true,
+      RangesOk, and_true]
+    omega
+
+/-- **C13 (injection lines — the single-line case, the former `C13_injections`)**. When every injection
+statement is written on ONE line and every injection line of the text is the first line of a column-0
+statement (no injection-looking line inside a string or a continuation), the statement-level pass does
+what the former line-level theorem said: no line of the result is an injection, and the lines kept are
+the lines of the text that are not injections, in order (here without the "modulo empty lines" of the
+former statement: the last line goes like the others). -/
+theorem C13_injections (t : Text) (ss : List Stmt)
+    (hok : RangesOk 0 (splitNl t).length (injectionMarks (splitNl t) ss))
+    (hone : ∀ r ∈ injectionMarks (splitNl t) ss, r.isGuard = true → r.lineno = r.endLineno)
+    (hall : ∀ i, i < (splitNl t).length → isInjection ((splitNl t).getD i []) = true →
+      ∃ r ∈ injectionMarks (splitNl t) ss, r.lineno = i + 1) :
+    suppressSysPath (some ss) t = joinNl ((splitNl t).filter fun l => !isInjection l) ∧
+    (∀ l ∈ splitNl (suppressSysPath (some ss) t), isInjection l = false) ∧
+    (splitNl (suppressSysPath (some ss) t)).filter (fun l => !l.isEmpty) =
+      ((splitNl t).filter fun l => !isInjection l).filter (fun l => !l.isEmpty) := by
+  have hk := keepOutside_single_line (injectionMarks (splitNl t) ss) 0 (splitNl t) hok hone
+    (fun r hr => by
+      simp only [injectionMarks, List.mem_map, List.mem_filter] at hr
+      obtain ⟨s, _, rfl⟩ := hr
+      rfl)
+    (fun i hi h => by simpa using hall i hi h)
+  have heq : suppressSysPath (some ss) t = joinNl ((splitNl t).filter fun l => !isInjection l) := by
+    rw [C13_injection_statements t ss hok, hk]
+  refine ⟨heq, ?_⟩
+  rw [heq]
+  by_cases hnil : ((splitNl t).filter fun l => !isInjection l) = []
+  · rw [hnil]
+    simp [joinNl, splitNl, isInjection_nil]
+  · rw [splitNl_joinNl _ hnil (fun l hl => splitNl_no_nl t l (List.mem_filter.mp hl).1)]
+    exact ⟨fun l hl => by simpa using (List.mem_filter.mp hl).2, rfl⟩
+
+/-- the former example: hypotheses hold, the last line goes -/
+example : suppressSysPath (some [⟨1, 1, true⟩, ⟨2, 2, true⟩]) "x = 1\n__import__(\"sys\").path[0:0] = [\"a\"]".toList =
+    joinNl ((splitNl "x = 1\n__import__(\"sys\").path[0:0] = [\"a\"]".toList).filter fun l => !isInjection l) := by decide
+
+/-- the three inputs of finding F50 (the parser's answer is what `ast.parse` reports) -/
+example : suppressSysPath (some [⟨1, 4, true⟩, ⟨6, 6, true⟩])
+    "__import__(\"sys\").path[0:0] = [\n    \"a\",\n    \"b\",\n]\n# comment\nx = 1\n".toList =
+    "# comment\nx = 1\n".toList := by decide
+example : suppressSysPath (some [⟨1, 2, true⟩, ⟨4, 4, true⟩])
+    "__import__(\"sys\").path[0:0] = [\"a\",\n \"b\"]\n# comment\nx = 1\n".toList =
+    "# comment\nx = 1\n".toList := by decide
+/-- ragged continuation lines -/
+example : suppressSysPath (some [⟨1, 3, true⟩, ⟨5, 5, true⟩])
+    "__import__(\"sys\").path[0:0] = [\n        \"a\",\n    \"b\"]\n# comment\nx = 1\n".toList =
+    "# comment\nx = 1\n".toList := by decide
+/-- a triple-quoted right-hand side; `; y = 2` after the injection goes with its line; an
+injection-looking line inside a triple-quoted string (second statement, lines 4-6) is KEPT -/
+example : suppressSysPath (some [⟨1, 3, true⟩, ⟨3, 3, false⟩, ⟨4, 6, true⟩])
+    "__import__(\"sys\").path[0:0] = \"\"\"a\nb\n\"\"\".split(); y = 2\ns = \"\"\"\n__import__(\"sys\").path[0:0] = [\"a\"]\n\"\"\"".toList =
+    "s = \"\"\"\n__import__(\"sys\").path[0:0] = [\"a\"]\n\"\"\"".toList := by decide
+/-- the last line of a text without final newline (finding F42's shape) -/
+example : suppressSysPath (some [⟨1, 1, true⟩, ⟨2, 2, true⟩]) "x = 1\n__import__(\"sys\").path[0:0] = [\"a\"]".toList =
+    "x = 1".toList := by decide
+example : RangesOk 0 6 (injectionMarks (splitNl "__import__(\"sys\").path[0:0] = [\n    \"a\",\n    \"b\",\n]\n# comment\nx = 1\n".toList)
+    [⟨1, 4, true⟩, ⟨6, 6, true⟩]) := by simp [injectionMarks, RangesOk]
 
 /-! ## Explicit line joining (finding F33, repaired by 55c4b14) -/
 
